@@ -165,6 +165,13 @@ RULE = ('histories of 1..12 operations (set / append / delete / get / set_header
         'combinations above plus datetimes over years 1..9999 with second-granular offsets, overflow at both ends, leap days, max_age strings with sign / blanks / underscores / garbage, negative and huge '
         'floats, non-ASCII same_site, Domain/Path containing "; "), after every call the exact Set-Cookie values of _wsgi_headers() / _asgi_headers() (taken within one clock second) and every exception '
         'kind are compared with the Cw model; each set_cookie is repeated on a fresh response against the stateless setCookieLine. '
+        'COOKIE VALUE CONTENT: a quarter of the cookie values (full-app cases and Cw lines) are built from a grammar of "escape look-alikes" - 1..4 atoms, some repeated, at the start / inside / at the end of the value, '
+        'mixed with the ordinary alphabet: backslash + octal triple [0-3][0-7][0-7] (incl. the triples of the characters the writer itself escapes: 073 054 040 042 134 011 177 000 377), backslash + triple out of range '
+        '(first digit 4..7, digits 8/9, \\400 \\777 \\378), backslash backslash + triple, 1-2 / 4 digits, backslash + quote, quote + triple, backslash + a character written as an octal escape, runs of 3..5 backslashes, and the same shapes in '
+        'other notations (%5C101, \\x41, \\u0041, \\n) as controls; judged by the echo through the request API and by an independent one-pass reader of the emitted line (cookie value content oracle). In the Cw session the cookie-pair of every '
+        'stateless line, all pairs of a response in one Cookie header, and foreign quoted strings (bare backslash escapes not produced by the writer, unterminated quotes) go through the real _parse_cookie_header and Ck.parseCookieHeader (cUnquote) of the driver (op `echo`). '
+        'RELATION TYPES: 35% of the append_link calls take rel from a grammar of 1..3 SP-separated relation types mixing registered names with extension relation types given as absolute URIs (http / https / other schemes, upper case) or as '
+        'network-path references //host/path (RFC 3986 4.2), hosts and paths with non-ASCII and reserved characters; the Rp model is fed the same values. '
         'Set-Cookie ORDER: in the histories and in the full-app cookie cases half of the raw append_header(Set-Cookie) lines carry a cookie name that set_cookie / unset_cookie are also called with '
         '(value / Path / quoted value / Max-Age variants; raw before or after the API call, several raw lines per name); the Set-Cookie lines are read in the order handed to start_response / ASGI send by a '
         'minimal RFC 6265 user agent, and for ASGI response objects the WSGI emission of the same object is compared line by line. '
@@ -445,9 +452,75 @@ def rand_cookie_kwargs(rnd, rejects=False):
 _COOKIE_VALUE_ALPHA = 'abcXYZ019 ;,"\\=%-_.~!#$&\'()*+/:<>?@[]^`{|}\t\x7f'
 
 
-def rand_cookie_value(rnd):
-    if rnd.random() < 0.08:
+# "escape look-alikes": text that, once the writer has escaped it, puts an escape-introducing character in front of characters that
+# themselves read like an escape.  http.cookies writes a value with an illegal character as a quoted string (`\\` -> `\\\\`, `"` -> `\\"`,
+# other illegal characters -> `\\ooo`); the reader has two escape syntaxes (`\\[0-3][0-7][0-7]` and `\\c`).  The atoms span both syntaxes and
+# the boundaries of the octal one: first digit 0..3 | 4..7, digits 8/9, fewer / more than three digits, the triples that name the
+# characters the writer itself escapes (`;` 073, `,` 054, SP 040, `"` 042, `\\` 134, HT 011, DEL 177, 000, 377), doubled backslashes,
+# backslash + quote, backslash + a character that is written as an octal escape, and the same shapes in other notations as controls.
+_OCT_TRIPLES_IN = ['073', '054', '040', '042', '134', '011', '177', '000', '377', '101', '300', '077', '012', '015', '200']
+_OCT_TRIPLES_OUT = ['400', '477', '777', '378', '389', '08a', '19 ', '800', '090', '3_7']
+
+
+def _oct_triple(rnd, in_range=True):
+    r = rnd.random()
+    if in_range:
+        return rnd.choice(_OCT_TRIPLES_IN) if r < 0.6 else rnd.choice('0123') + rnd.choice('01234567') + rnd.choice('01234567')
+    if r < 0.5:
+        return rnd.choice(_OCT_TRIPLES_OUT)
+    d = [rnd.choice('0123'), rnd.choice('01234567'), rnd.choice('01234567')]
+    i = rnd.randrange(3); d[i] = rnd.choice('4567' if i == 0 and rnd.random() < 0.5 else '89')
+    return ''.join(d)
+
+
+def rand_escape_lookalike(rnd):
+    """(atom, class): one escape look-alike"""
+    k = rnd.choice(['bs_oct', 'bs_oct', 'bs_oct', 'bs_oct_out', 'bs_bs_oct', 'bs_bs', 'bs', 'bs_quote', 'quote', 'bs_short', 'bs_long', 'bs_escaped_char',
+                    'quote_oct', 'bs_run', 'other_notation'])
+    if k == 'bs_oct': return '\\' + _oct_triple(rnd), k
+    if k == 'bs_oct_out': return '\\' + _oct_triple(rnd, False), k
+    if k == 'bs_bs_oct': return '\\\\' + _oct_triple(rnd, rnd.random() < 0.8), k
+    if k == 'bs_bs': return '\\\\', k
+    if k == 'bs': return '\\', k
+    if k == 'bs_quote': return rnd.choice(['\\"', '\\\\"', '"\\', '\\""']), k
+    if k == 'quote': return rnd.choice(['"', '""']), k
+    if k == 'bs_short': return '\\' + _oct_triple(rnd)[:rnd.randint(1, 2)], k
+    if k == 'bs_long': return '\\' + _oct_triple(rnd) + rnd.choice('01234567'), k
+    if k == 'bs_escaped_char': return '\\' + rnd.choice(';, "\t\x7f') + rnd.choice(['', _oct_triple(rnd)[:rnd.randint(1, 3)]]), k
+    if k == 'quote_oct': return '"' + _oct_triple(rnd), k
+    if k == 'bs_run': return '\\' * rnd.randint(3, 5) + rnd.choice(['', _oct_triple(rnd)]), k
+    return rnd.choice(['%5C', '%5c101', '\\x41', '\\u0041', '\\n', '\\r', '\\t', '\\/', '/101', '&#92;101', '\\o101', '\\0o101']), k
+
+
+def rand_lookalike_value(rnd):
+    """(value, classes): 1..4 escape look-alikes (sometimes the same one several times in a row) at the start / in the middle / at the end of
+    the value, mixed with characters of the ordinary alphabet"""
+    parts = []; classes = []
+    n = rnd.choice([1, 1, 1, 2, 2, 3, 4])
+    lead = rnd.random() < 0.55; trail = rnd.random() < 0.55
+    if lead: parts.append(''.join(rnd.choice(_COOKIE_VALUE_ALPHA) for _ in range(rnd.randint(1, 3))))
+    for i in range(n):
+        a, k = rand_escape_lookalike(rnd)
+        classes.append(k)
+        parts.append(a * (rnd.randint(2, 3) if rnd.random() < 0.15 else 1))
+        if i + 1 < n and rnd.random() < 0.5:
+            parts.append(''.join(rnd.choice(_COOKIE_VALUE_ALPHA) for _ in range(rnd.randint(1, 2))))
+    if trail: parts.append(''.join(rnd.choice(_COOKIE_VALUE_ALPHA) for _ in range(rnd.randint(1, 3))))
+    classes.append('at_start' if not lead else 'inside'); classes.append('at_end' if not trail else 'inside')
+    return ''.join(parts), classes
+
+
+def rand_cookie_value(rnd, count=None):
+    r = rnd.random()
+    if r < 0.08:
         return ''
+    if r < 0.33:
+        v, classes = rand_lookalike_value(rnd)
+        if count:
+            for k in set(classes): count('cookie_value_lookalike_' + k)
+            if '\\' in v and any(v[i] == '\\' and v[i + 1] in '0123' and v[i + 2] in '01234567' and v[i + 3] in '01234567' for i in range(len(v) - 3)):
+                count('cookie_value_backslash_then_octal_triple_in_range')
+        return v
     return ''.join(rnd.choice(_COOKIE_VALUE_ALPHA) for _ in range(rnd.randint(1, 8)))
 
 
@@ -1538,6 +1611,7 @@ def _cookies(ctx):
     ORA_UNSET = 'unset cookie expired'
     ORA_LINES = 'one separate Set-Cookie line per cookie and per appended raw cookie'
     ORA_ECHO = 'cookie echo: request API reads the same name and value'
+    ORA_UA_VALUE = 'cookie value content: a recipient of the emitted Set-Cookie line (DQUOTEs stripped, backslash escapes resolved in one left-to-right pass) holds the value given'
     try:
         # every printable ASCII character inside a cookie name: either rejected with KeyError (not an RFC 6265 token character)
         # or written and read back by the request API under the same name
@@ -1564,7 +1638,7 @@ def _cookies(ctx):
             for _ in range(rnd.randint(1, 5)):
                 r = rnd.random()
                 if r < 0.7:
-                    ops.append(['set', rnd.choice(NAMES), rand_cookie_value(rnd), rand_cookie_kwargs(rnd, rejects=True)])
+                    ops.append(['set', rnd.choice(NAMES), rand_cookie_value(rnd, ctx.count), rand_cookie_kwargs(rnd, rejects=True)])
                     if ops[-1][3].get('max_age') is not None: ctx.count('cookie_max_age_' + max_age_class(ops[-1][3]['max_age']))
                 elif r < 0.85:
                     kw = {}
@@ -1693,6 +1767,14 @@ def _cookies(ctx):
                         if got != want or vals != [want]:
                             fail_echo = fail_echo or f'cookie {n!r}={want!r} echoed as {pairs[n][0]!r} is read as {got!r} / {vals!r}'
                 ctx.oracle(ORA_ECHO, fail_echo is None, fail_echo, dict(case, cookie_header=hdr, echo_stack=estack))
+                # the same claim judged without falcon's reader: a recipient of the emitted line that strips the DQUOTEs and resolves the
+                # backslash escapes in ONE left-to-right pass holds the value that was given
+                fail_ua = None
+                for n in order:
+                    coded = pairs[n][0].partition('=')[2]
+                    if pairs[n][0].partition('=')[0] != n or cookie_dequote(coded) != pairs[n][1]:
+                        fail_ua = fail_ua or f'cookie {n!r}={pairs[n][1]!r} is written as {pairs[n][0]!r}, which a recipient reads as {cookie_dequote(coded)!r}'
+                ctx.oracle(ORA_UA_VALUE, fail_ua is None, fail_ua, dict(case, cookie_header=hdr))
             ctx.seen(('c', stack, dflt, repr(ops)), bool(sc))
             ctx.count('cookie_' + stack)
     finally:
@@ -1788,6 +1870,20 @@ def _cookie_lines(ctx):
     from falcon.response import ResponseOptions
     rnd = ctx.rng
     sess = ctx.session('exact Set-Cookie lines of set_cookie / unset_cookie = Cw model', 'cwdriver')
+    from falcon.request_helpers import _parse_cookie_header
+    from runner import alarm, Hang
+
+    def echo_op(hdr):
+        try:
+            with alarm(3):
+                jar = _parse_cookie_header(hdr)
+            got = 'jar ' + (','.join(cp(n) + '=' + '/'.join(cp(v) for v in vs) for n, vs in jar.items()) or '-')
+        except Hang:
+            got = 'hang'
+        except Exception as e:  # noqa
+            got = 'raised ' + type(e).__name__
+        sess.op('echo ' + cp(hdr), got)
+
     for ci in range(ctx.n(5000, 80000)):
         asgi = rnd.random() < 0.5
         dflt = rnd.random() < 0.5
@@ -1817,7 +1913,7 @@ def _cookie_lines(ctx):
         for _ in range(rnd.randint(1, 5)):
             if rnd.random() < 0.72:
                 name = rnd.choice(_CW_NAMES[:5]) if rnd.random() < 0.6 else rnd.choice(_CW_NAMES)
-                val = rand_cookie_value(rnd)
+                val = rand_cookie_value(rnd, ctx.count)
                 if rnd.random() < 0.06:
                     val += rnd.choice(['\xe9', '日', '\x80', '\xff'])
                 kw = rand_cw_kwargs(rnd)
@@ -1837,6 +1933,9 @@ def _cookie_lines(ctx):
                     one.set_cookie(name, val, **kw)
                     _, vals = lines_of(one)
                     sess.op(f'setcookie {"01"[dflt]} ' + fields, 'line ' + cp(vals[0]) if len(vals) == 1 else f'{len(vals)} lines')
+                    if len(vals) == 1:
+                        # the cookie-pair of the line, sent back: the real request parser against Ck.parseCookieHeader (cUnquote)
+                        echo_op(vals[0].split('; ')[0]); ctx.count('cw_echo_pair')
                 except (KeyError, ValueError, OverflowError) as e:
                     sess.op(f'setcookie {"01"[dflt]} ' + fields, 'err ' + cookie_err_kind(e))
             else:
@@ -1855,6 +1954,18 @@ def _cookie_lines(ctx):
             t0, vals = lines_of(resp)
             some_line = some_line or bool(vals)
             sess.op(f'emit {t0}', 'lines ' + (','.join(cp(v) for v in vals) or '-'))
+            if len(vals) > 1 and rnd.random() < 0.5:
+                # all cookies of the response sent back in one Cookie header
+                echo_op(rnd.choice(['; ', ';', ' ;  ']).join(v.split('; ')[0] for v in vals)); ctx.count('cw_echo_several_pairs')
+        if rnd.random() < 0.25:
+            # a Cookie header written by somebody else: quoted strings whose escapes were not produced by the writer (a bare backslash in front
+            # of an octal triple / of any character, out-of-range triples, an unterminated escape at the end, quotes inside)
+            toks = []
+            for _ in range(rnd.randint(1, 3)):
+                body, _k = rand_lookalike_value(rnd)
+                body = body.replace(';', rnd.choice(['', '\\073']))
+                toks.append(rnd.choice(['c1', 'c2', 'sid', 'x']) + '=' + rnd.choice(['"%s"', '"%s"', '"%s"', '%s', '"%s', '%s"', ' "%s" ']) % body)
+            echo_op('; '.join(toks)); ctx.count('cw_echo_foreign_quoted_string')
         ctx.seen(('cw', asgi, dflt, repr(ops)), some_line)
         ctx.count('cw_asgi' if asgi else 'cw_wsgi')
     sess.finish()
@@ -1865,7 +1976,37 @@ def _cookie_lines(ctx):
 _U_ALPHA = ['a', 'Z', '0', '/', '/', '?', '=', '&', '#', ' ', '%', '%41', '%zz', '+', ':', '@', ',', ';', '~', '-', '.', '_', '"', "'", '<', '>', '\\', '^', '`', '{', '|', '}',
             'é', 'ü', 'ß', 'Ω', 'я', '日', '本', '語', '😀', '\u200b', '\u202e', 'ÿ', '\x7f', '(', ')', '[', ']', '!', '*', '$',
             '\t', '\n', '\r', '\x00', '\x01', '\x0f', '\x10', '\x1f']   # control characters: the escape is two hex digits also below 0x10
+_REL_PATH_ALPHA = [c for c in _U_ALPHA if c not in (' ', '\t', '\n', '\r', '\x00', '\x01', '\x0f', '\x10', '\x1f')] + ['é', '日', 'x', '/', '-']
 _F_ALPHA = ['a', 'B', '1', '.', '-', '_', ' ', '(', ')', ',', ';', '%', "'", '+', '=', '&', '/', 'é', 'Å', 'ñ', '日', '本', '😀', '𝟏', 'ﬁ', '"', '\\']
+
+
+_REL_NAMES = ['next', 'prev', 'alternate', 'self', 'stylesheet', 'up', 'describedby', 'item', 'version-history', 'x.y', 'Next']
+
+
+def rand_rel(rnd):
+    """(rel, classes): 1..3 space-separated relation types (RFC 8288 section 2.1): registered names and extension relation types, the latter as
+    absolute URIs (`http://`, `https://`, another scheme with an authority) or as network-path references (`//host/path`, RFC 3986 section 4.2),
+    with ASCII, reserved and non-ASCII characters in host and path"""
+    members = []; classes = set()
+    n = rnd.choice([1, 1, 1, 2, 2, 3])
+    for _ in range(n):
+        r = rnd.random()
+        if r < 0.3:
+            members.append(rnd.choice(_REL_NAMES)); classes.add('registered')
+            continue
+        host = rnd.choice(['example.com', 'example.com', 'é.example', 'x', 'localhost:8080', '日本.example', 'user@h'])
+        path = ''.join(rnd.choice(_REL_PATH_ALPHA) for _ in range(rnd.randint(0, 7)))
+        if r < 0.65:
+            lead = '//'; classes.add('scheme_relative')
+        else:
+            lead = rnd.choice(['http://', 'https://', 'HTTP://', 'urn-x://', 'a+b.c://']); classes.add('absolute_uri')
+        m = lead + host + rnd.choice(['/', '/rels/', '']) + path
+        members.append(m)
+        if not m.isascii(): classes.add(('scheme_relative' if lead == '//' else 'absolute_uri') + '_non_ascii')
+        elif any(c in m for c in '"<>\\^`{|}'): classes.add(('scheme_relative' if lead == '//' else 'absolute_uri') + '_reserved_char')
+    if n > 1: classes.add('several_members')
+    if n > 1 and 'registered' in classes and len(classes & {'scheme_relative', 'absolute_uri'}) > 0: classes.add('names_and_uris_mixed')
+    return rnd.choice([' ', ' ', ' ', '  ']).join(members), sorted(classes)     # RFC 8288: relation types are separated by SP
 
 
 def rp_list(l):
@@ -2044,6 +2185,9 @@ def _uris(ctx):
             for _ in range(rnd.randint(1, 3)):
                 tgt = ''.join(rnd.choice(_U_ALPHA) for _ in range(rnd.randint(1, 8)))
                 rel = rnd.choice(_RELS[:5]) if rnd.random() < 0.7 else rnd.choice(_RELS)
+                if rnd.random() < 0.35:
+                    rel, rel_classes = rand_rel(rnd)
+                    for k in rel_classes: ctx.count('link_rel_' + k)
                 kw = {}
                 if rnd.random() < 0.4: kw['title'] = rnd.choice(['A title', 'x, y', 'semi;colon', '<a>', ''])
                 if rnd.random() < 0.5: kw['title_star'] = (rnd.choice(['', 'en', 'de-AT']), ''.join(rnd.choice(_U_ALPHA) for _ in range(rnd.randint(0 if rnd.random() < 0.1 else 1, 6))))
